@@ -431,6 +431,22 @@ impl Module {
                     out.insert("reference_cycle".to_string());
                 }
             }
+            if let Body::Enum(vs) = &td.body {
+                if td.attrs.repr() == Repr::Internal {
+                    for v in vs {
+                        if let VBody::Newtype(f) = &v.body {
+                            if let TyExpr::User(j, _) = &f.ty {
+                                if matches!(self.types[*j].body, Body::Enum(_)) {
+                                    out.insert("internal_newtype_variant_with_enum_payload".to_string());
+                                }
+                            }
+                            if f.inline {
+                                out.insert("internal_newtype_variant_payload_inlined".to_string());
+                            }
+                        }
+                    }
+                }
+            }
             if !td.expected_path().ends_with(".ts") {
                 out.insert("export_to_file_without_ts_suffix".to_string());
             }
